@@ -150,7 +150,10 @@ class Harness:
             if beh == 'raise':
                 raise KeyError('cleanup')
             if beh == 'bad':
-                return 7
+                # something that is no state function - also values that are false in python terms
+                i = self.counters.get('bad-cleanup', 0)
+                self.counters['bad-cleanup'] = i + 1
+                return (7, False, 0, '', (), 0.0, 'junk', [])[i % 8]
             if beh == 'finish':
                 return self.SM.Finish       # what a state function may return, a cleanup function may not (a non-callable like 7)
             return self.funcs[beh[1]]
